@@ -26,10 +26,11 @@ UNITS = [{
     'fns': {
         'impl Stack::new': {'props': S5 + ['C06'], 'ensures': [(S5, 'r.wf() && r.sp_spec() == 0 && r.cells().len() == 256')]},
         'impl Stack::clear': {
-            'props': ['C12', 'C07', 'C06'],
+            'props': ['C12', 'C07', 'C05', 'C06'],
             'ensures': [
-                # every slot is wiped (dead frames are no longer roots), sp and the capacity stay
-                (['C12', 'C07'], 'final(self).cells().len() == old(self).cells().len() && final(self).sp_spec() == old(self).sp_spec()'),
+                # every slot is wiped (dead frames are no longer roots), sp and the capacity stay: a stack never shrinks,
+                # which is what lets a continuation saved earlier be restored later (C05)
+                (['C12', 'C07', 'C05'], 'final(self).cells().len() == old(self).cells().len() && final(self).sp_spec() == old(self).sp_spec()'),
                 (['C12', 'C07'], 'forall|i: int| 0 <= i < final(self).cells().len() ==> final(self).cells()[i] == VCell::Undefined'),
             ],
         },
